@@ -215,6 +215,10 @@ func c06Lns(f []string) string {
 			} else {
 				s.Attributes[aaa.AttrIPv4Address] = net.IP(c06Bytes(ra)).String()
 			}
+			// the production path: LCP renegotiated (the real onLCPDown takes the NCPs down), authentication
+			// repeated, then the AAA answer is evaluated and startNCP runs again on the same session
+			c.onLCPDown(s)
+			s.Phase = ppp.PhaseAuthenticate
 			c.extractIPFromAttributes(s)
 			c06Registry(c, s, ral)
 			c.startNCP(s)
